@@ -298,4 +298,155 @@ theorem merge_sorted : ∀ (fuel : Nat) (ls : List (List Nat)), AllSorted ls →
               rw [List.getElem?_eq_none (by omega)] at hi
               simp at hi
 
+/-! ## nothing but duplicates is dropped, and the fuel suffices -/
+
+def total (ls : List (List Nat)) : Nat := (ls.map List.length).sum
+
+theorem total_set : ∀ (ls : List (List Nat)) (j : Nat) (v : List Nat), j < ls.length →
+    total (ls.set j v) + (ls.getD j []).length = total ls + v.length := by
+  intro ls
+  induction ls with
+  | nil => intro j v h; simp at h
+  | cons a t ih =>
+    intro j v h
+    cases j with
+    | zero => simp [total]; omega
+    | succ j =>
+      have := ih j v (by simpa using h)
+      simp only [total, List.set_cons_succ, List.map_cons, List.sum_cons, List.getD_cons_succ] at this ⊢
+      omega
+
+theorem pickFold_total : ∀ (n : Nat) (ls : List (List Nat)) (best : Option Nat) (j : Nat),
+    total (pickFold ls best j n).1 ≤ total ls := by
+  intro n
+  induction n with
+  | zero => intro ls best j; exact Nat.le_refl _
+  | succ n ih =>
+    intro ls best j
+    simp only [pickFold]
+    split
+    · exact ih _ _ _
+    · split
+      · split
+        · refine Nat.le_trans (ih _ _ _) ?_
+          by_cases hj : j < ls.length
+          · have := total_set ls j (ls.getD j []).tail hj
+            simp only [List.length_tail] at this
+            omega
+          · rw [List.set_eq_of_length_le (by omega)]
+            exact Nat.le_refl _
+        · split
+          · exact ih _ _ _
+          · exact ih _ _ _
+      · exact ih _ _ _
+      · exact ih _ _ _
+      · exact ih _ _ _
+
+/-- the fold only drops an element equal to the head of the (untouched) current choice -/
+theorem pickFold_keeps : ∀ (n : Nat) (ls : List (List Nat)) (best : Option Nat) (j : Nat) (x : Nat),
+    (∀ a, best = some a → a < j) → (∃ i, x ∈ ls.getD i []) →
+    ∃ i, x ∈ (pickFold ls best j n).1.getD i [] := by
+  intro n
+  induction n with
+  | zero => intro ls best j x _ h; exact h
+  | succ n ih =>
+    intro ls best j x hb hx
+    simp only [pickFold]
+    cases best with
+    | none => exact ih _ _ _ x (by intro a ha; cases ha; omega) hx
+    | some a =>
+      have haj : a < j := hb a rfl
+      simp only
+      cases hla : ls.getD a [] with
+      | nil =>
+        cases hlj : ls.getD j [] with
+        | nil => simp only [List.head?]; exact ih _ _ _ x (by intro a ha; cases ha) hx
+        | cons y rj => simp only [List.head?]; exact ih _ _ _ x (by intro a ha; cases ha; omega) hx
+      | cons x0 ra =>
+        cases hlj : ls.getD j [] with
+        | nil => simp only [List.head?]; exact ih _ _ _ x (by intro b hb'; cases hb'; omega) hx
+        | cons y rj =>
+          simp only [List.head?]
+          by_cases hxy : x0 = y
+          · simp only [hxy, if_true]
+            apply ih _ _ _ x (by intro b hb'; cases hb'; omega)
+            obtain ⟨i, hi⟩ := hx
+            rw [show (y :: rj).tail = (ls.getD j []).tail from by rw [hlj]]
+            by_cases hij : j = i
+            · -- `x` sits in list `j`: either it is the dropped head (= head of list `a`) or in the tail
+              rw [← hij, hlj] at hi
+              rcases List.mem_cons.1 hi with rfl | hi
+              · refine ⟨a, ?_⟩
+                rw [getD_set_tail, if_neg (by omega), hla, hxy]
+                exact List.mem_cons_self
+              · refine ⟨j, ?_⟩
+                rw [getD_set_tail, if_pos rfl, hlj]
+                exact hi
+            · exact ⟨i, by rw [getD_set_tail, if_neg hij]; exact hi⟩
+          · simp only [hxy, if_false]
+            split
+            · exact ih _ _ _ x (by intro b hb'; cases hb'; omega) hx
+            · exact ih _ _ _ x (by intro b hb'; cases hb'; omega) hx
+
+theorem getD_nil_of_ge (ls : List (List Nat)) (i : Nat) (h : ls.length ≤ i) : ls.getD i [] = [] := by
+  simp only [List.getD_eq_getElem?_getD]
+  rw [List.getElem?_eq_none h]; rfl
+
+/-- **Completeness of the merge**: with strictly increasing per-path lists and fuel above the total
+length, every element of every list is emitted. -/
+theorem merge_complete : ∀ (fuel : Nat) (ls : List (List Nat)), AllSorted ls → total ls < fuel →
+    ∀ x, (∃ i, x ∈ ls.getD i []) → x ∈ merge fuel ls := by
+  intro fuel
+  induction fuel with
+  | zero => intro ls _ h; omega
+  | succ fuel ih =>
+    intro ls hs htot x hx
+    simp only [merge]
+    obtain ⟨hs', hp⟩ := pickFold_picked ls.length ls none 0 hs (by intro i hi; omega)
+    have hlen := pickFold_length ls.length ls none 0
+    have htot' := pickFold_total ls.length ls none 0
+    obtain ⟨i, hi⟩ := pickFold_keeps ls.length ls none 0 x (by intro a ha; cases ha) hx
+    have hilt : i < ls.length := by
+      by_cases hlt : i < ls.length
+      · exact hlt
+      · rw [getD_nil_of_ge _ i (by omega)] at hi; simp at hi
+    -- some list is non-empty, so the fold chose a non-empty list
+    cases hb : (pickFold ls none 0 ls.length).2 with
+    | none =>
+      rw [hb] at hp
+      have := hp i (by omega)
+      rw [this] at hi; simp at hi
+    | some a =>
+      rw [hb] at hp
+      obtain ⟨halt, hnil, hmin⟩ := hp
+      simp only
+      cases hl : (pickFold ls none 0 ls.length).1.getD a [] with
+      | nil =>
+        have := hnil hl i (by omega)
+        rw [this] at hi; simp at hi
+      | cons x0 rest =>
+        simp only
+        by_cases hx0 : x = x0
+        · rw [hx0]; exact List.mem_cons_self
+        · refine List.mem_cons_of_mem _ (ih _ ?_ ?_ x ?_)
+          · intro i'
+            rw [getD_set]
+            split
+            · have := hs' a; rw [hl, List.pairwise_cons] at this; exact this.2
+            · exact hs' i'
+          · have := total_set (pickFold ls none 0 ls.length).1 a rest (by omega)
+            rw [hl] at this
+            simp only [List.length_cons] at this
+            omega
+          · by_cases hia : i = a
+            · refine ⟨a, ?_⟩
+              rw [getD_set, if_pos ⟨rfl, by omega⟩]
+              rw [hia, hl] at hi
+              rcases List.mem_cons.1 hi with h | h
+              · exact absurd h hx0
+              · exact h
+            · refine ⟨i, ?_⟩
+              rw [getD_set, if_neg (by intro hc; exact hia hc.1.symm)]
+              exact hi
+
 end C39.Disjoint
